@@ -3,6 +3,7 @@
 from __future__ import annotations
 
 import sys
+from decimal import Decimal
 from typing import TYPE_CHECKING
 from typing import Any
 from typing import Generic
@@ -31,6 +32,7 @@ from liquid.token import TOKEN_TRUE
 from liquid.token import TOKEN_WORD
 
 from .path import Path
+from .path import quote_string
 
 if TYPE_CHECKING:
     from liquid import Environment
@@ -179,6 +181,9 @@ class StringLiteral(Literal[str]):
     def __eq__(self, other: object) -> bool:
         return isinstance(other, StringLiteral) and self.value == other.value
 
+    def __str__(self) -> str:
+        return quote_string(self.value)
+
     def __hash__(self) -> int:
         return hash(self.value)
 
@@ -212,6 +217,11 @@ class FloatLiteral(Literal[float]):
 
     def __eq__(self, other: object) -> bool:
         return isinstance(other, FloatLiteral) and self.value == other.value
+
+    def __str__(self) -> str:
+        # Liquid has no exponent notation.
+        rv = format(Decimal(repr(self.value)), "f")
+        return rv if "." in rv else f"{rv}.0"
 
 
 class RangeLiteral(Expression):
